@@ -5,6 +5,7 @@ import (
 	"fmt"
 	"sort"
 	"strings"
+	"sync"
 	"time"
 
 	"verif/fw"
@@ -334,7 +335,8 @@ func init() {
 			"exhaustive for all histories of length <=3 (thorough: <=4) over regions built from a 3-point key lattice " +
 			"(incl. unbounded), 3 ids and 2 tables (one a prefix of the other), then seeded random histories of up to " +
 			"30 operations over a 6-point lattice, 3 tables and 4 ids; a history is non-trivial when it contains an " +
-			"eviction, a rejected insert or a removal; distinct = distinct operation sequences",
+			"eviction, a rejected insert or a removal; distinct = distinct operation sequences. Plus rounds of 2..4 mutually " +
+			"overlapping regions inserted by concurrent goroutines into one cache (non-overlap and newest-wins at quiescence)",
 		Assumptions: []string{
 			"regions with equal id but different names (ties) are judged only by the non-overlap invariant",
 			"a removal is only issued for the object currently cached under its name or for an already evicted one",
@@ -347,7 +349,7 @@ func init() {
 		},
 		Floors: func(tier string) map[string]int64 {
 			return map[string]int64{"evaluations": 20000, "evictions_of_2_or_more": 100, "rejected_inserts": 100,
-				"insert_before_first": 100, "insert_before_second": 100, "insert_elsewhere": 100, "removals": 100}
+				"insert_before_first": 100, "insert_before_second": 100, "insert_elsewhere": 100, "removals": 100, "concurrent_discovery_rounds": 2000}
 		},
 		Run: runC08,
 	})
@@ -439,6 +441,63 @@ func runC08(c *fw.Ctx) {
 			c.Begin(fmt.Sprintf("rand-%d", h), nil)
 		}
 		judge(fmt.Sprintf("rand-%d", h), ops, h == 3)
+	}
+	// concurrent discoveries: G goroutines insert mutually overlapping regions of
+	// one table (distinct ids) into one cache at the same moment; whatever the
+	// order, the cache must end up without intersecting regions, holding the newest
+	{
+		crng := c.Rand("concurrent")
+		rounds := c.Pick(3000, 60000) / c.NBatches
+		var overlapping int64
+		for round := 0; round < rounds; round++ {
+			cache := gohbase.VerifNewCache()
+			g := 2 + crng.Intn(3)
+			specs := make([]regSpec, g)
+			bounds := []string{"", "b", "d", "f", ""}
+			for i := range specs {
+				lo := crng.Intn(3)
+				hi := lo + 2 + crng.Intn(2)
+				if hi > 4 {
+					hi = 4
+				}
+				// every one covers ["d","f") at least: all of them overlap pairwise
+				if lo > 2 {
+					lo = 2
+				}
+				if hi < 3 {
+					hi = 3
+				}
+				specs[i] = regSpec{Table: "t", Start: bounds[lo], Stop: bounds[hi], ID: uint64(10 + i)}
+			}
+			start := make(chan struct{})
+			var wg sync.WaitGroup
+			for i := range specs {
+				obj := specs[i].info()
+				wg.Add(1)
+				go func() { defer wg.Done(); <-start; cache.Put(obj) }()
+			}
+			close(start)
+			wg.Wait()
+			got := cache.List()
+			bad := false
+			for i := 0; i < len(got) && !bad; i++ {
+				for j := i + 1; j < len(got); j++ {
+					if infoOverlap(got[i], got[j]) {
+						bad = true
+						c.Violate(fmt.Sprintf("conc-%d", round), "cache:overlap:concurrent-discoveries",
+							fmt.Sprintf("%d regions inserted concurrently %v: the cache holds intersecting %v and %v", g, specs, got[i], got[j]), specs)
+						break
+					}
+				}
+			}
+			if !bad && (len(got) != 1 || got[0].ID() != uint64(10+g-1)) {
+				c.Violate(fmt.Sprintf("conc-%d", round), "cache:newest-did-not-win:concurrent-discoveries",
+					fmt.Sprintf("%d mutually overlapping regions inserted concurrently %v: the cache holds %v, expected only the newest (id %d)", g, specs, got, 10+g-1), specs)
+			}
+			overlapping++
+			c.EvalH(fw.Hash64(fmt.Sprintf("conc|%d|%d|%v", c.Batch, round, specs)), true)
+		}
+		c.Count("concurrent_discovery_rounds", overlapping)
 	}
 	c.Count("evictions_of_2_or_more", st.evict2)
 	c.Count("rejected_inserts", st.rejected)
